@@ -867,6 +867,8 @@ class Controller(object):
 
         # Otherwise, we are doing a restart
         self.last_successful_iter = 0
+        # solve_main rescales its rhoend after each soft restart; reduce_rho must use the same value
+        self.rhoend = params("restarts.rhoend_scale") * self.rhoend
         return None  # exit_info = None
 
     def move_furthest_points(self, number_of_samples, num_pts_to_move, params):
